@@ -53,13 +53,53 @@
 #include <GeographicLib/Intersect.hpp>
 #include <GeographicLib/Math.hpp>
 #include <memory>
+#include <functional>
 #include <tuple>
 #include <algorithm>
 
 namespace c17isect {
 using namespace GeographicLib;
-using gv::Args; using gv::hx; using gv::unhx; using gv::emit; using gv::bad; using gv::Reg; using gv::Rng;
+using gv::Args; using gv::hx; using gv::unhx; using gv::emit; using gv::Reg; using gv::Rng;
 typedef Intersect::Point Pnt;
+typedef Intersect::XPoint XP;
+
+// Every #BAD line of the ix_* ops carries, at the end of its details, the tags of the decidable classes the query belongs to:
+//   [basic-not-converged]       one of the Basic calls the search can make from its start points ran into the iteration cap numit_
+//                               (observed through NumInverse; Lean: basic_can_fail_silently) -- the class of finding F57
+//   [exactly-coincident-lines]  the two lines coincide exactly by construction (same start and equal / opposite azimuths, both
+//                               equatorial, or both on one meridian)
+// known_findings.json matches on these tags, so that the same symptom outside the class still alarms.
+// (evaluated only when a #BAD line is written: the extra Basic calls are not free)
+inline std::function<std::string()>& tags() { static std::function<std::string()> t = [] { return std::string(); }; return t; }
+inline void bad(const std::string& relation, const std::string& details) { gv::bad(relation, details + tags()()); }
+
+// Basic(start) with its number of iterations (NumInverse increments once per iteration), as a table entry
+struct BE { XP s, b; long long its; };
+inline BE basicAt(const Intersect& in, const GeodesicLine& lX, const GeodesicLine& lY, const XP& s) {
+  long long k = in.NumInverse(); XP b = in.Basic(lX, lY, s); long long its = in.NumInverse() - k;
+  if (its >= Intersect::numit_) gv::stat("basic-not-converged");
+  return BE{s, b, its};
+}
+// the (2k+1) x (2k+1) grid of candidate starts p0 + (i d, j d), |i|, |j| <= k: a superset of every start table the search can use
+inline std::vector<BE> gridTable(const Intersect& in, const GeodesicLine& lX, const GeodesicLine& lY, const XP& p0, double d, int k) {
+  std::vector<BE> t;
+  for (int i = -k; i <= k; ++i) for (int j = -k; j <= k; ++j) t.push_back(basicAt(in, lX, lY, p0 + XP(i * d, j * d)));
+  return t;
+}
+inline bool capped(const std::vector<BE>& t) { for (auto& e : t) if (e.its >= Intersect::numit_) return true; return false; }
+// the start points of AllInt0, exactly as the code forms them
+inline std::vector<XP> allStarts(const Intersect& in, double maxdist, const XP& p0, int& m) {
+  double maxdistx = maxdist + in._delta; m = int(std::ceil(maxdistx / in._d3));
+  int n = m - 1; double d3 = maxdistx / m;
+  std::vector<XP> st; st.push_back(p0);
+  for (int i = -n; i <= n; i += 2) for (int j = -n; j <= n; j += 2) if (!(i == 0 && j == 0)) st.push_back(p0 + XP(d3 * (i + j) / 2, d3 * (i - j) / 2));
+  return st;
+}
+inline bool cappedAll(const Intersect& in, const GeodesicLine& lX, const GeodesicLine& lY, double maxdist, const XP& p0) {
+  double md = std::fmax(0.0, maxdist); if (!(md <= 40 * in._d)) return false;
+  int m; for (auto& s : allStarts(in, md, p0, m)) if (basicAt(in, lX, lY, s).its >= Intersect::numit_) return true;
+  return false;
+}
 
 // ------------------------------------------------------------------------------------------------ helpers
 struct V3 { double x, y, z; };
@@ -222,6 +262,7 @@ inline int optInt(const Args& a, size_t i) { return a.size() > i ? std::atoi(a[i
 
 // --------------------------------------------------------------------------------------------------- ops
 inline void op_closest(const Args& a) {
+  struct TagReset { ~TagReset() { tags() = [] { return std::string(); }; } } tagreset;
   World& w = world(unhx(a[0]), unhx(a[1]), std::atoi(a[2].c_str()));
   double latX = unhx(a[3]), lonX = unhx(a[4]), aziX = unhx(a[5]), latY = unhx(a[6]), lonY = unhx(a[7]), aziY = unhx(a[8]), p0x = unhx(a[9]), p0y = unhx(a[10]);
   int h = optInt(a, 11);
@@ -231,6 +272,7 @@ inline void op_closest(const Args& a) {
   double x = p.first, y = p.second;
   emit(hx(x) + " " + hx(y) + " " + std::to_string(c));
   Coinc coinc = exactCoincident(w.f, latX, lonX, aziX, latY, lonY, aziY);
+  tags() = [&] { return std::string(capped(gridTable(w.in, lX, lY, XP(p0), w.in._d1, 1)) || cappedAll(w.in, lX, lY, 2.5 * Math::pi() * w.a, XP(p0)) ? " [basic-not-converged]" : "") + (coinc.exact ? " [exactly-coincident-lines]" : ""); };
   Chk k = checkPoint(w, lX, lY, x, y, c, coinc, "closest");
   if (!std::isfinite(x + y)) return;
   double d = l1(x, y, p0x, p0y);
@@ -266,6 +308,7 @@ inline void op_closest(const Args& a) {
 }
 
 inline void op_next(const Args& a) {
+  struct TagReset { ~TagReset() { tags() = [] { return std::string(); }; } } tagreset;
   World& w = world(unhx(a[0]), unhx(a[1]), std::atoi(a[2].c_str()));
   double lat = unhx(a[3]), lon = unhx(a[4]), aziX = unhx(a[5]), aziY = unhx(a[6]);
   int h = optInt(a, 7);
@@ -275,6 +318,7 @@ inline void op_next(const Args& a) {
   double x = p.first, y = p.second;
   emit(hx(x) + " " + hx(y) + " " + std::to_string(c));
   Coinc coinc = exactCoincident(w.f, lat, lon, aziX, lat, lon, aziY);
+  tags() = [&] { return std::string(capped(gridTable(w.in, lX, lY, XP(0, 0), w.in._d2, 2)) || (std::isfinite(x + y) && cappedAll(w.in, lX, lY, std::fmin(1.02 * l1(x, y, 0, 0) + 1e5 * w.sc, 3 * w.circ), XP(0, 0))) ? " [basic-not-converged]" : "") + (coinc.exact ? " [exactly-coincident-lines]" : ""); };
   Chk k = checkPoint(w, lX, lY, x, y, c, coinc, "next");
   if (!std::isfinite(x + y)) return;
   double d = l1(x, y, 0, 0), origin = 1e4 * w.sc;
@@ -318,6 +362,7 @@ inline void op_next(const Args& a) {
 }
 
 inline void op_segment(const Args& a) {
+  struct TagReset { ~TagReset() { tags() = [] { return std::string(); }; } } tagreset;
   World& w = world(unhx(a[0]), unhx(a[1]), std::atoi(a[2].c_str()));
   double v[8]; for (int i = 0; i < 8; ++i) v[i] = unhx(a[3 + i]);
   int h = optInt(a, 11);
@@ -331,6 +376,9 @@ inline void op_segment(const Args& a) {
   // equatorial or both on one meridian: InverseLine returns azimuths 90/-90 resp. 0/180 exactly there
   Coinc coinc = exactCoincident(w.f, v[0], v[1], lX.Azimuth(), v[4], v[5], lY.Azimuth());
   if (!((v[0] == 0 && v[2] == 0 && v[4] == 0 && v[6] == 0) || (v[1] == v[3] && v[5] == v[7]))) coinc.exact = coinc.closed = coinc.line = false;
+  tags() = [&] { std::vector<BE> t = gridTable(w.in, lX, lY, XP(sx / 2, sy / 2), w.in._d1, 1); bool cp = capped(t) || cappedAll(w.in, lX, lY, 2.5 * Math::pi() * w.a, XP(sx / 2, sy / 2));
+    for (int ix = 0; ix < 2; ++ix) for (int iy = 0; iy < 2; ++iy) if (basicAt(w.in, lX, lY, XP(ix * sx, iy * sy)).its >= Intersect::numit_) cp = true;
+    return std::string(cp ? " [basic-not-converged]" : "") + (coinc.exact ? " [exactly-coincident-lines]" : ""); };
   Chk k = checkPoint(w, lX, lY, x, y, c, coinc, "segment");
   if (!std::isfinite(x + y)) return;
   // segmode exactly as documented
@@ -371,6 +419,7 @@ inline void op_segment(const Args& a) {
 }
 
 inline void op_all(const Args& a) {
+  struct TagReset { ~TagReset() { tags() = [] { return std::string(); }; } } tagreset;
   World& w = world(unhx(a[0]), unhx(a[1]), std::atoi(a[2].c_str()));
   double latX = unhx(a[3]), lonX = unhx(a[4]), aziX = unhx(a[5]), latY = unhx(a[6]), lonY = unhx(a[7]), aziY = unhx(a[8]),
     D1 = unhx(a[9]), D2 = unhx(a[10]), p0x = unhx(a[11]), p0y = unhx(a[12]);
@@ -383,8 +432,9 @@ inline void op_all(const Args& a) {
   std::string o = std::to_string(v1.size()) + " " + std::to_string(v2.size());
   for (size_t i = 0; i < v2.size(); ++i) o += " " + hx(v2[i].first) + " " + hx(v2[i].second) + " " + std::to_string(i < c2.size() ? c2[i] : 99);
   emit(o);
-  if (c1.size() != v1.size() || c2.size() != v2.size()) { bad("all-c-vector", "the vector of coincidence indicators has a different length from the vector of points"); return; }
   Coinc coinc = exactCoincident(w.f, latX, lonX, aziX, latY, lonY, aziY);
+  tags() = [&] { return std::string(cappedAll(w.in, lX, lY, D1, XP(p0)) || cappedAll(w.in, lX, lY, D2, XP(p0)) || capped(gridTable(w.in, lX, lY, XP(p0), w.in._d1, 1)) ? " [basic-not-converged]" : "") + (coinc.exact ? " [exactly-coincident-lines]" : ""); };
+  if (c1.size() != v1.size() || c2.size() != v2.size()) { bad("all-c-vector", "the vector of coincidence indicators has a different length from the vector of points"); return; }
   bool anyc = cc != 0, degenerate = false, finite = true;
   std::vector<double> sa1(v1.size()), sa2(v2.size());
   for (int pass = 0; pass < 2; ++pass) {
@@ -636,8 +686,10 @@ inline void genAll(Rng& r, int hq) {
 // next: generic, nearpar, coincident-{parallel,antiparallel,meridian,equator}, meridian-equator, pole, perpendicular;
 // segment: generic, crossing, near-miss, touching, short-far, coincident-{equator,meridian,oblique}, nearpar, polar;
 // ellipsoids (ix:ell-*): WGS84, International, f = 1/150, 0 (two radii), +-0.015 (series), WGS84 / +-1/50 / +-1/10 exact.
-inline void generate(Rng& r, bool thorough) {
-  long n = thorough ? 30000 : 16000;
+inline void generate(Rng& r, bool thorough, int K = 1) {
+  auto Q = [&](long v) { return std::max<long>(1, v / K); };   // K slices: the orchestrating generate() runs the parts round-robin
+
+  long n = Q(thorough ? 30000 : 16000);
   int hgrid = thorough ? 250000 : 500000;
   for (long i = 0; i < n; ++i) {
     // the brute-force scan on every case of the thorough tier and on a fraction of the quick tier
